@@ -217,6 +217,14 @@ RefResult ref_solve(const LP& lp, long maxp) {
     r.pivots += rr.pivots;
     if (rr.status == REF_OPTIMAL) { r.dual_known = true; r.dual_infeasible = (rr.z > 0); if (r.dual_infeasible) r.ray = rr.x; }
   }
+  if (r.status == REF_UNBOUNDED) {
+    // an unbounded LP whose feasible region exists only "at infinity" (see the box test below): INFEASIBLE is as good an answer
+    int n = lp.ncols();
+    LP bx = lp; for (auto& c : bx.obj) c = 0; bx.offset = 0; const Q M(100000000);
+    for (int j = 0; j < n; j++) { if (!bx.lo[j].finite() || bx.lo[j].v < -M) bx.lo[j] = Ext(Q(-M)); if (!bx.up[j].finite() || bx.up[j].v > M) bx.up[j] = Ext(M); if (bx.up[j] < bx.lo[j]) bx.up[j] = bx.lo[j]; }
+    RefResult br = solve_core(bx, maxp); r.pivots += br.pivots;
+    if (br.status != REF_OPTIMAL) r.feas_fragile = true;
+  }
   if (r.status == REF_OPTIMAL) {
     // Is the class OPTIMAL robust against tolerances?  (a) feasibility: shrink every inequality; (b) boundedness: look for a
     // recession direction with |d|_inf >= 1/2 that loses less than delta of objective.  A floating-point solver with 1e-6
@@ -240,6 +248,15 @@ RefResult ref_solve(const LP& lp, long maxp) {
     }
     RefResult tr = solve_core(t, maxp); r.pivots += tr.pivots;
     if (tr.status != REF_OPTIMAL) r.feas_fragile = true;
+    if (!r.feas_fragile) {
+      // feasible only "at infinity": two rows that are parallel up to the rounding of one coefficient (3 x0 - 2 x3 <= -12 and
+      // x0 - 0.66666666666666663 x3 >= 7) admit points only at |x| ~ 1e17, where no floating-point solver can satisfy a row to
+      // 1e-6.  If the LP has no feasible point inside the box |x_j| <= 1e8 the verdict oracles skip it as well.
+      LP bx = lp; for (auto& c : bx.obj) c = 0; bx.offset = 0; const Q M(100000000);
+      for (int j = 0; j < n; j++) { if (!bx.lo[j].finite() || bx.lo[j].v < -M) bx.lo[j] = Ext(Q(-M)); if (!bx.up[j].finite() || bx.up[j].v > M) bx.up[j] = Ext(M); if (bx.up[j] < bx.lo[j]) bx.up[j] = bx.lo[j]; }
+      RefResult br = solve_core(bx, maxp); r.pivots += br.pivots;
+      if (br.status != REF_OPTIMAL) r.feas_fragile = true;
+    }
     LP rec; rec.sense = 1; rec.obj.assign(n, Q(0)); rec.lo.resize(n); rec.up.resize(n);
     for (int j = 0; j < n; j++) { rec.lo[j] = lp.lo[j].finite() ? Ext(Q(0)) : Ext(Q(-1)); rec.up[j] = lp.up[j].finite() ? Ext(Q(0)) : Ext(Q(1)); }
     rec.A = lp.A; rec.lhs.resize(m); rec.rhs.resize(m);
